@@ -11,7 +11,13 @@ measurements of the requested lengths); (4) stream `cli-entry`: the CLI entry fu
 same call twice in one process), stdout+stderr / listing / summary / exit status judged by the
 property text; (5) stream `scan-history`: scan, change the tree (copy / rename to the sibling
 language, rewrite, delete), scan again with the first report handed back: per-language counters,
-findings and `check .` judged by the lengths the files have now."""
+findings and `check .` judged by the lengths the files have now - under Configuration.verbose on / off, through
+scan_path or scan_codebase, rewritten files partly with an OLD modification time; the LOC-weighted quality profile, lines
+of code, average and the root folder's profile are judged too; (6) stream `codebase-growth`: one Codebase filled file by
+file, every figure read after a prefix and at the end (query before complete); (7) file names from the Pygments-derived
+pools (harness/gen/names.py: BUILD, SConscript, BUILD.bazel, x.hh, x.mjs ... next to same-suffix non-sources AUTHORS,
+LICENSE, defs.bazel) in the in-process check stream (all calls in one process; a failure is re-run in a fresh interpreter
+to tell whether it needs the history) and in `cli-entry` (file arguments in alphabetical / reverse / random order)."""
 import contextlib
 import io
 import os
@@ -133,10 +139,20 @@ def _probe_path():
     return _probe
 
 
-def real_check(quiet, files):
+def kept(files, names):
+    """the entries of `files` that are source files of a supported language (all, when no names are given)"""
+    import select_real as sel
+    return [ls for i, ls in enumerate(files) if names is None or sel.expected_language(names[i]) is not None]
+
+
+def real_check(quiet, files, names=None):
     """run the real check_command on one temp file per entry; scan_file is stubbed to return
-    measurements of the given lengths -> reply in the model driver's format"""
+    measurements of the given lengths -> reply in the model driver's format. With `names`, entry i is the file
+    <tmp>/f<i>/<names[i]> (its own directory, so that whole-file-name patterns such as BUILD or SConscript apply);
+    entries whose name is no source file of a supported language must not be analysed and are left out of the reply"""
     import typer
+    import shutil
+    import select_real as sel
     from pathlib import Path
     from codelimit.commands import check as checkmod
     from codelimit.common.Location import Location
@@ -145,7 +161,11 @@ def real_check(quiet, files):
     paths = []
     by_path = {}
     for i, ls in enumerate(files):
-        p = Path(d) / ("f%03d.py" % i)
+        if names is None:
+            p = Path(d) / ("f%03d.py" % i)
+        else:
+            os.mkdir(os.path.join(d, "f%03d" % i))
+            p = Path(d) / ("f%03d" % i) / names[i]
         p.write_text("")
         paths.append(p)
         by_path[str(p)] = [Measurement("u%d" % j, Location(j + 1, 1), Location(j + 1, 9), v) for j, v in enumerate(ls)]
@@ -173,16 +193,20 @@ def real_check(quiet, files):
         checkmod.scan_file, checkmod.lex, checkmod.check_file = saved[0], saved[1], saved[3]
         if saved[2] is not None:
             checkmod._read_file = saved[2]
-        for p in paths:
-            p.unlink()
-        os.rmdir(d)
+        shutil.rmtree(d, ignore_errors=True)
     out = buf.getvalue()
     printed = 1 if out.strip() else 0
     listed = [[] for _ in files]
     for line in out.splitlines():
-        m = re.match(r".*f(\d\d\d)\.py:\d+:\d+: (\d+) \S+ u\d+\s*$", line)
+        m = re.match(r".*f(\d\d\d)(?:\.py|/[^/:]+):\d+:\d+: (\d+) \S+ u\d+\s*$", line)
         if m:
             listed[int(m.group(1))].append(int(m.group(2)))
+    if names is not None:
+        stray = [names[i] for i, l in enumerate(listed) if l and sel.expected_language(names[i]) is None]
+        if stray:
+            return "bad functions listed for %s, which is no source file of a supported language" % stray[:3]
+        listed = [l for i, l in enumerate(listed) if sel.expected_language(names[i]) is not None]
+        files = kept(files, names)
     says = 1 if "functions need refactoring" in out.replace("\n", " ") else 0
     cm = re.search(r"(\d+) functions need", out.replace("\n", " "))
     count = int(cm.group(1)) if cm else sum(len(l) for l in listed) if not printed or not says else -1
@@ -230,6 +254,43 @@ def gen_files(rnd):
     return files
 
 
+def fresh_real_check(quiet, files, names):
+    """real_check on this one input in a FRESH interpreter (does the failure need what earlier calls of this process left behind?)"""
+    import json
+    import subprocess
+    code = ("import sys, json; sys.path.insert(0, %r); from props import C02; a = json.loads(sys.argv[1]); "
+            "print('\\n' + C02.real_check(a[0], a[1], a[2]))" % os.path.join(common.VERIF, "harness"))
+    try:
+        p = subprocess.run([sys.executable, "-c", code, json.dumps([quiet, files, names])], capture_output=True, text=True, timeout=120)
+        return (p.stdout.strip().splitlines() or ["no output: " + p.stderr[-200:]])[-1]
+    except Exception as e:  # noqa: BLE001
+        return "fresh interpreter failed: %r" % (e,)
+
+
+def gen_names(rnd, files):
+    """file names for the entries of a check case: mostly plain `src.py`; a share from the pools derived from Pygments
+    (harness/gen/names.py): every extension / WHOLE file name that maps to a supported language (`x.hh`, `x.mjs`, `BUILD`,
+    `SConscript`, `BUILD.bazel`, ...), and next to such a file often a name with the SAME suffix that is no source file
+    (AUTHORS, LICENSE, Makefile, `defs.bazel`): whatever is decided per suffix instead of per name shows in the listing"""
+    import select_real as sel
+    pools = sel.name_pools()
+    out = []
+    for i in range(len(files)):
+        r = rnd.random()
+        if r < 0.45:
+            out.append(rnd.choice(["src.py", "mod.js", "main.c", "api.ts"]))
+        elif r < 0.75:
+            out.append(sel.pool_stem(rnd, rnd.choice(pools["lang"])[0]))
+        else:
+            prev = out[-1] if out else "BUILD"
+            ext = os.path.splitext(prev)[1]
+            sib = pools["siblings"].get(prev) or ([("defs" + ext), ("other" + ext)] if ext else ["AUTHORS", "LICENSE", "Makefile"])
+            out.append(rnd.choice(sib))
+    if rnd.random() < 0.5:
+        rnd.shuffle(out)
+    return out
+
+
 def _correspond_main(ctx):
     Ls = list(range(0, 201)) + [250, 1000, 10 ** 6, 10 ** 12]
     reqs = ["classify 0 %d" % L for L in Ls]
@@ -247,13 +308,37 @@ def _correspond_main(ctx):
         nontrivial.add(("L", L))
     rnd = ctx.rng("files")
     n = ctx.pick(400, 8000)
-    cases = [(rnd.random() < 0.5, gen_files(rnd)) for _ in range(n)]
-    cases += [(True, [[30, 15], [1]]), (True, [[31]]), (False, [[]]), (True, [[61], [60]]), (True, [[]])]
-    reqs = ["check %d %d %s" % (1 if q else 0, len(fs), " ".join("%d %s" % (len(l), " ".join(map(str, l))) if l else "0" for l in fs)) for q, fs in cases]
+    cases = [(rnd.random() < 0.5, gen_files(rnd), None) for _ in range(n)]
+    cases += [(True, [[30, 15], [1]], None), (True, [[31]], None), (False, [[]], None), (True, [[61], [60]], None), (True, [[]], None)]
+    rn = ctx.rng("file-names")
+    for _ in range(ctx.pick(250, 4000)):
+        fs = gen_files(rn)
+        while len(fs) < 2:
+            fs = gen_files(rn)
+        fs = [l or [rn.choice(BOUNDARY + [75])] for l in fs]
+        cases.append((rn.random() < 0.5, fs, gen_names(rn, fs)))
+    n_named = sum(1 for c in cases if c[2] is not None)
+    n_name_only = sum(1 for c in cases if c[2] is not None and any(sel_lang(x) and "." not in x for x in c[2]))
+    reqs = []
+    for q, fs0, nm in cases:
+        fs = kept(fs0, nm)
+        reqs.append("check %d %d %s" % (1 if q else 0, len(fs), " ".join("%d %s" % (len(l), " ".join(map(str, l))) if l else "0" for l in fs)))
     model2 = common.run_driver(reqs)
-    impl2 = [real_check(q, fs) for q, fs in cases]
-    for (q, fs), m, i in zip(cases, model2, impl2):
-        inp = {"stream": "check", "quiet": q, "files": fs}
+    impl2 = [real_check(q, fs, nm) for q, fs, nm in cases]
+    earlier_names, fresh_runs = [], 0
+    for (q, fs0, nm), m, i in zip(cases, model2, impl2):
+        fs = kept(fs0, nm)
+        inp = {"stream": "check", "quiet": q, "files": fs0}
+        if nm is not None:
+            inp["names"] = nm
+            if i != expected_check(q, fs) and fresh_runs < 6:
+                # state probe: all calls share this process. Does the input fail on its own?
+                fresh_runs += 1
+                if fresh_real_check(q, fs0, nm) == i:
+                    inp["fails_in_a_fresh_process_too"] = True
+                else:
+                    inp["names_checked_earlier_in_this_process"] = list(earlier_names)
+            earlier_names += [x for x in nm if x not in earlier_names]
         mm, ii = m, i
         if m.split()[2:3] == ["0"]:   # nothing printed: only exit code and the printed flag are observable
             mm = " ".join(m.split()[:3]); ii = " ".join(i.split()[:3])
@@ -263,16 +348,22 @@ def _correspond_main(ctx):
         if (ii if mm is not m else i) != (" ".join(exp.split()[:3]) if mm is not m else exp):
             fails.append({"input": inp, "observed": i, "required": exp})
         if any(v > 30 for l in fs for v in l):
-            nontrivial.add(("check", q, tuple(map(tuple, fs))))
+            nontrivial.add(("check", q, tuple(map(tuple, fs)), tuple(nm or ())))
     return {
         "evaluations": len(Ls) + len(cases), "distinct_nontrivial": len(nontrivial),
-        "rule": "every length 0..200 plus large values through all classifiers (exhaustive range); %d random multisets of lengths (boundary-biased: 14..17, 29..32, 59..62) over 1..5 files x quiet/not through check_command; non-trivial = distinct lengths, and distinct check inputs with at least one function longer than 30" % n,
+        "rule": "every length 0..200 plus large values through all classifiers (exhaustive range); %d random multisets of lengths (boundary-biased: 14..17, 29..32, 59..62) over 1..5 files x quiet/not through check_command; non-trivial = distinct lengths, and distinct check inputs with at least one function longer than 30; %d of the check inputs name their files from the Pygments-derived pools (every extension and whole file name of a supported language: x.hh, x.mjs, x.pyi, BUILD, SConscript, BUILD.bazel, ... next to same-suffix names that are no source files: AUTHORS, LICENSE, Makefile, defs.bazel; %d with a language chosen by the whole name), file arguments in generated and shuffled order, all calls in one process: files that are no source files are not analysed, the others are listed as the model says" % (n, n_named, n_name_only),
         "samples": [{"L": L, "model": m, "impl": i} for L, m, i in list(zip(Ls, model, impl))[29:33]] +
-                   [{"quiet": q, "files": fs, "model": m, "impl": i} for (q, fs), m, i in list(zip(cases, model2, impl2))[:3]],
-        "exhaustive": False, "distribution": {"lengths": len(Ls), "check_cases": len(cases)},
+                   [{"quiet": q, "files": fs, "model": m, "impl": i} for (q, fs, _nm), m, i in list(zip(cases, model2, impl2))[:3]],
+        "exhaustive": False, "distribution": {"lengths": len(Ls), "check_cases": len(cases), "check_cases_with_pool_names": n_named,
+                                              "check_cases_with_whole_name_language": n_name_only},
         "disagreements": dis[:50], "oracle_failures": fails[:50],
         "generated_hashes": {"Gen/Logic.lean": _sha(os.path.join(common.LEAN, "CodeLimit", "Gen", "Logic.lean"))},
     }
+
+
+def sel_lang(name):
+    import select_real as sel
+    return sel.expected_language(name)
 
 
 def _sha(path):
@@ -313,14 +404,15 @@ def search(ctx, hints):
         if i != expected_classify(L):
             fails.append({"input": {"stream": "classify", "L": L}, "observed": i, "required": expected_classify(L)})
     rnd = ctx.rng("search")
-    for _ in range(1500):
+    for k in range(1500):
         q, fs = rnd.random() < 0.5, gen_files(rnd)
-        i = real_check(q, fs)
-        exp = expected_check(q, fs)
+        nm = gen_names(rnd, fs) if k % 3 == 2 else None
+        i = real_check(q, fs, nm)
+        exp = expected_check(q, kept(fs, nm))
         if exp.split()[2] == "0":
             i, exp = " ".join(i.split()[:3]), " ".join(exp.split()[:3])
         if i != exp:
-            fails.append({"input": {"stream": "check", "quiet": q, "files": fs}, "observed": i, "required": exp})
+            fails.append({"input": dict({"stream": "check", "quiet": q, "files": fs}, **({"names": nm} if nm else {})), "observed": i, "required": exp})
     fails.sort(key=lambda f: len(str(f["input"])))
     return fails[:20]
 
@@ -336,18 +428,27 @@ def replay(payload):
             print("exit %s, printed %r" % (o["code"], o["out"][:400]))
         print("violated: %s" % (bad or "nothing"))
         return not bad
+    if inp["stream"] == "codebase-growth":
+        bad = run_growth_case(inp)
+        print("Codebase.add_file for %s, figures read after %s files" % (inp["files"], inp["read_after"]))
+        print("violated: %s" % (bad or "nothing"))
+        return not bad
     if inp["stream"] == "scan-history":
         bad = run_history_case(inp)
-        print("files %s, then %s" % (inp["files"], inp["steps"]))
+        print("files %s, then %s (%s, Configuration.verbose=%s)" % (inp["files"], inp["steps"], inp.get("entry", "scan_path"), bool(inp.get("verbose"))))
         print("violated: %s" % (bad or "nothing"))
         return not bad
     if inp["stream"] == "classify":
         i = real_classify(inp["L"])
         print("L=%d -> %s (required %s)" % (inp["L"], i, expected_classify(inp["L"])))
         return i == expected_classify(inp["L"])
-    i = real_check(inp["quiet"], inp["files"])
-    exp = expected_check(inp["quiet"], inp["files"])
-    print("check quiet=%s files=%s -> %s (required %s)" % (inp["quiet"], inp["files"], i, exp))
+    if inp.get("names_checked_earlier_in_this_process"):
+        h = inp["names_checked_earlier_in_this_process"]
+        print("earlier in the same process: check on files named %s" % h)
+        real_check(False, [[1]] * len(h), h)
+    i = real_check(inp["quiet"], inp["files"], inp.get("names"))
+    exp = expected_check(inp["quiet"], kept(inp["files"], inp.get("names")))
+    print("check quiet=%s files=%s%s -> %s (required %s)" % (inp["quiet"], inp["files"], " named %s (each in its own directory)" % inp["names"] if inp.get("names") else "", i, exp))
     if exp.split()[2] == "0":
         i, exp = " ".join(i.split()[:3]), " ".join(exp.split()[:3])
     return i == exp
@@ -365,31 +466,54 @@ _CLI_LINE = re.compile(r"^(.*?):(\d+):(\d+): (\d+) (\S+) (.*)$")
 def cli_source(name, lengths):
     """a source file whose i-th function `u<i>` is exactly lengths[i] lines long (first line known by construction)"""
     import select_real as sel
-    ext = os.path.splitext(name)[1]
+    lang = sel.expected_language(os.path.basename(name))      # by extension or by the whole name (BUILD, SConscript, x.hh, x.mjs)
     parts = []
     for i, n in enumerate(lengths):
-        if ext == ".py":
+        if lang == "Python":
             parts.append(sel.py_function("u%d" % i, max(n, 2)) if n > 1 else "def u%d(a): return a\n" % i)
-        elif ext in (".js", ".ts"):
+        elif lang in ("JavaScript", "TypeScript"):
             parts.append(sel.brace_function("function u%d(a)" % i, max(n, 2)) if n > 1 else "function u%d(a) { return a; }\n" % i)
-        elif ext in (".c", ".cpp"):
+        elif lang in ("C", "C++"):
             parts.append(sel.brace_function("int u%d(int a)" % i, max(n, 2)) if n > 1 else "int u%d(int a) { return a; }\n" % i)
         else:
             parts.append("text %d\n" % i)
     return "\n".join(parts)
 
 
-def gen_cli_case(rnd, quiet, verbose_how, cls, form):
-    """verbose_how: none | option | config-true | config-false; cls: clean | warn | alarm; form: files | dot | dirs"""
+def cli_pool_names(rnd):
+    """(a file name from the Pygments-derived pool whose language Code Limit supports - whole-name patterns twice as often -,
+    names with the same suffix that are no source files)"""
+    import select_real as sel
+    pools = sel.name_pools()
+    cands = [fn for fn, lang in pools["lang"] if lang not in ("Java", "C#")]
+    whole = [fn for fn in cands if not fn.startswith("unit.")]
+    fn = rnd.choice(whole) if whole and rnd.random() < 0.65 else rnd.choice(cands)
+    ext = os.path.splitext(fn)[1]
+    sib = list(pools["siblings"].get(fn) or []) or (["defs" + ext, "notes" + ext] if ext and sel.expected_language("defs" + ext) is None else [])
+    return sel.pool_stem(rnd, fn), sib
+
+
+def gen_cli_case(rnd, quiet, verbose_how, cls, form, named=None):
+    """verbose_how: none | option | config-true | config-false; cls: clean | warn | alarm; form: files | dot | dirs;
+    named: None | sorted | reversed | shuffled - the tree also holds a file whose language follows from a Pygments
+    extension / whole-name pattern outside the classic pool (it carries the long function) and same-suffix names that
+    are no source files, in one directory; file arguments in alphabetical (pre-commit, shell globs), reverse or random order"""
     names = rnd.sample(CLI_FILES, rnd.choice([1, 2, 3, 4]))
     files = {}
     for n in names:
         files[n] = [rnd.choice(CLI_CLASSES["clean"]) for _ in range(rnd.choice([0, 1, 2, 3]))]
     src = [n for n in names if not n.endswith(".txt")]
+    if named:
+        fn, sib = cli_pool_names(rnd)
+        d = rnd.choice(["", "", "src/", "lib/"])
+        files[d + fn] = [rnd.choice(CLI_CLASSES["clean"]) for _ in range(rnd.choice([0, 1]))]
+        for x in rnd.sample(sib, min(len(sib), rnd.choice([1, 2, 3]))):
+            files[d + x] = [1, 2]
+        src = [d + fn] * 3 + src
     if cls != "clean" and not src:
         src = ["a.py"]; files["a.py"] = []
     if cls != "clean":
-        files[rnd.choice(src)].append(rnd.choice(CLI_CLASSES[cls]))
+        files[src[0] if named else rnd.choice(src)].append(rnd.choice(CLI_CLASSES[cls]))
         if rnd.random() < 0.5:
             files[rnd.choice(src)].append(rnd.choice(CLI_CLASSES["warn"]))
     for n in files:
@@ -399,7 +523,10 @@ def gen_cli_case(rnd, quiet, verbose_how, cls, form):
     exclude = [rnd.choice(["lib/", "*.ts", "e.cpp"])] if rnd.random() < 0.2 else []
     if form == "files":
         args = sorted(files)
-        rnd.shuffle(args)
+        if named == "reversed":
+            args.reverse()
+        elif named != "sorted":
+            rnd.shuffle(args)
     elif form == "dot":
         args = ["."]
     else:
@@ -418,7 +545,7 @@ def cli_expected(case):
     checked = {}
     for a in case["args"]:
         for n in sorted(case["files"]):
-            if not (a == "." or n == a or n.startswith(a + "/")) or n.endswith(".txt"):
+            if not (a == "." or n == a or n.startswith(a + "/")) or sel.expected_language(os.path.basename(n)) is None:
                 continue
             if sel.spec_excluded(n.split("/"), pats):
                 continue
@@ -519,12 +646,22 @@ def cli_entry_stream(ctx):
     for _ in range(ctx.pick(8, 400)):
         cases.append(gen_cli_case(rnd, rnd.random() < 0.7, rnd.choice(["none", "option", "config-true", "config-false"]),
                                   rnd.choice(["clean", "clean", "warn", "alarm"]), rnd.choice(["files", "dot", "dirs"])))
+    rn = ctx.rng("cli-entry-names")
+    for quiet in (True, False):
+        for cls in ("warn", "alarm"):
+            for form, named in (("files", "sorted"), ("files", "reversed"), ("dot", "shuffled")):
+                cases.append(gen_cli_case(rn, quiet, "none", cls, form, named))
+    for _ in range(ctx.pick(4, 200)):
+        cases.append(gen_cli_case(rn, rn.random() < 0.5, rn.choice(["none", "option", "config-true"]), rn.choice(["clean", "warn", "alarm"]),
+                                  rn.choice(["files", "files", "dot", "dirs"]), rn.choice(["sorted", "reversed", "shuffled"])))
     with ThreadPoolExecutor(max_workers=14) as ex:
         observed = list(ex.map(run_cli_case, cases))
     fails = []
     stats = {"processes": len(cases), "calls": 0, "quiet": 0, "verbose_on": 0, "must_be_silent": 0, "second_call_in_process": 0,
-             "with_exclusions": 0, "exit_1": 0}
+             "with_exclusions": 0, "exit_1": 0, "with_pool_named_file_and_same_suffix_non_sources": 0}
     for c, obs in zip(cases, observed):
+        stats["with_pool_named_file_and_same_suffix_non_sources"] += 1 if any(
+            sel_lang(os.path.basename(n)) is None and not n.endswith(".txt") for n in c["files"]) else 0
         bad = cli_judge(c, obs)
         exp = cli_expected(c)
         stats["calls"] += len(obs)
@@ -577,11 +714,14 @@ def gen_history_case(rnd):
         elif r < 0.8 and names:
             dst = rnd.choice(names)
             cur[dst] = [rnd.choice(BOUNDARY + [3, 45, 75]) for _ in range(rnd.choice([0, 1, 2]))]
-            steps.append(["write", dst, list(cur[dst])])
+            # the new content may arrive with an old modification time (backup, `cp -p`, archive, other checkout)
+            when = rnd.choice([None, None, "keep", 7200, 86400 * 400])
+            steps.append(["write", dst, list(cur[dst])] + ([when] if when is not None else []))
         elif names and len(names) > 1:
             src = rnd.choice(names)
             steps.append(["delete", src]); del cur[src]
-    return {"stream": "scan-history", "files": files, "steps": steps}
+    return {"stream": "scan-history", "files": files, "steps": steps, "verbose": rnd.random() < 0.5,
+            "entry": rnd.choice(["scan_path", "scan_path", "scan_codebase"])}
 
 
 def history_after(case):
@@ -612,13 +752,30 @@ def findings_expected(files):
     return sorted((n, "u%d" % i, v) for n, ls in files.items() for i, v in enumerate(ls) if v > 30)
 
 
-def observe_codebase(cb):
+def observe_codebase(cb, aggregate=True):
     from codelimit.common.report.Report import Report
-    cb.aggregate()
+    if aggregate:
+        cb.aggregate()
     totals = {l: {"files": t.files, "functions": t.functions, "hard_to_maintain": t.hard_to_maintain, "unmaintainable": t.unmaintainable}
               for l, t in cb.totals.items()}
     units = sorted((u.file, u.measurement.unit_name, u.measurement.value) for u in Report(cb).all_report_units_sorted_by_length_asc(30))
     return totals, units
+
+
+def profile_expected(files):
+    """the LOC-weighted quality profile, the lines of code, the number of functions and the average - from the lengths"""
+    ls = [v for l in files.values() for v in l]
+    prof = [0, 0, 0, 0]
+    for v in ls:
+        prof[cat(v)] += v
+    return {"profile": prof, "loc": sum(ls), "functions": len(ls), "average": -(-sum(ls) // len(ls)) if ls else 0}
+
+
+def observe_profile(cb):
+    """what the Summary of `codelimit scan` / a report is computed from"""
+    from codelimit.common.report.Report import Report
+    r = Report(cb)
+    return {"profile": list(r.quality_profile()), "loc": cb.total_loc(), "functions": len(cb.all_measurements()), "average": r.get_average()}
 
 
 def write_files(root, files, only=None):
@@ -641,13 +798,30 @@ def run_history_case(case):
     bad = []
     try:
         sel.reset_configuration()
+        from codelimit.common.Configuration import Configuration
+        Configuration.verbose = bool(case.get("verbose"))        # `codelimit scan --verbose` / `verbose: true` in .codelimit.yml
+        how = "%s, Configuration.verbose=%s" % (case.get("entry", "scan_path"), bool(case.get("verbose")))
+
+        def scan(cached_report=None):
+            if case.get("entry") == "scan_codebase":         # what scan_command calls (progress table, callbacks)
+                from pathlib import Path
+                from codelimit.common import Scanner
+                with contextlib.redirect_stdout(io.StringIO()), contextlib.redirect_stderr(io.StringIO()):
+                    return Scanner.scan_codebase(Path(root), cached_report)
+            return sel.run_scan_cb(root, cached_report)[2]
         write_files(root, case["files"])
         os.chdir(tmp)
-        _e, _a, cb1 = sel.run_scan_cb(root)
+        cb1 = scan()
+        p1 = observe_profile(cb1)                # read BEFORE anything else touches the code base object
+        if p1 != profile_expected(case["files"]):
+            bad.append("first scan (%s): quality profile / lines of code / functions / average %s, required %s" % (how, p1, profile_expected(case["files"])))
         cached = sel.as_cached_report(cb1)
-        t1, u1 = observe_codebase(cb1)
+        t1, u1 = observe_codebase(cb1, aggregate=False)
         if t1 != counters_expected(case["files"]) or u1 != findings_expected(case["files"]):
             bad.append("first scan: counters %s findings %s, required %s %s" % (t1, u1, counters_expected(case["files"]), findings_expected(case["files"])))
+        root_profile = list(cb1.tree["./"].profile)
+        if root_profile != profile_expected(case["files"])["profile"]:
+            bad.append("first scan (%s): profile of the root folder %s, required %s" % (how, root_profile, profile_expected(case["files"])["profile"]))
         for st in case["steps"]:
             if st[0] == "copy":
                 os.makedirs(os.path.dirname(os.path.join(root, st[2])), exist_ok=True)
@@ -656,12 +830,24 @@ def run_history_case(case):
                 os.makedirs(os.path.dirname(os.path.join(root, st[2])), exist_ok=True)
                 os.rename(os.path.join(root, st[1]), os.path.join(root, st[2]))
             elif st[0] == "write":
+                import time
+                old = os.stat(os.path.join(root, st[1])).st_mtime
                 write_files(root, {st[1]: st[2]})
+                when = st[3] if len(st) > 3 else None
+                if when == "keep":
+                    os.utime(os.path.join(root, st[1]), (old, old))
+                elif when is not None:
+                    os.utime(os.path.join(root, st[1]), (time.time() - when, time.time() - when))
             else:
                 os.unlink(os.path.join(root, st[1]))
         after = history_after(case)
-        _e, _a, cb2 = sel.run_scan_cb(root, cached)
+        cb2 = scan(cached)
+        p2 = observe_profile(cb2)
+        if p2 != profile_expected(after):
+            bad.append("second scan (first report handed back; %s): quality profile / lines of code / functions / average %s, required %s" % (how, p2, profile_expected(after)))
         t2, u2 = observe_codebase(cb2)
+        if list(cb2.tree["./"].profile) != profile_expected(after)["profile"]:
+            bad.append("second scan (%s): profile of the root folder %s, required %s" % (how, list(cb2.tree["./"].profile), profile_expected(after)["profile"]))
         if t2 != counters_expected(after):
             bad.append("second scan (first report handed back): per-language counters %s, required %s" % (t2, counters_expected(after)))
         if u2 != findings_expected(after):
@@ -686,7 +872,9 @@ def scan_history_stream(ctx):
     rnd = ctx.rng("scan-history")
     cases = [gen_history_case(rnd) for _ in range(ctx.pick(30, 300))]
     fails = []
-    stats = {"histories": len(cases), "steps": {}, "renamed_to_other_language": 0}
+    stats = {"histories": len(cases), "steps": {}, "renamed_to_other_language": 0, "verbose": sum(1 for c in cases if c["verbose"]),
+             "through_scan_codebase": sum(1 for c in cases if c["entry"] == "scan_codebase"),
+             "rewritten_with_old_mtime": sum(1 for c in cases for st in c["steps"] if st[0] == "write" and len(st) > 3)}
     for c in cases:
         for st in c["steps"]:
             stats["steps"][st[0]] = stats["steps"].get(st[0], 0) + 1
@@ -694,9 +882,61 @@ def scan_history_stream(ctx):
                 stats["renamed_to_other_language"] += 1
         bad = run_history_case(c)
         if bad:
-            fails.append({"input": c, "observed": bad[:3], "required": "per-language hard-to-maintain / unmaintainable counters, findings (> 30) and check agree with the function lengths of the files as they are now"})
+            fails.append({"input": c, "observed": bad[:3], "required": "quality profile, per-language hard-to-maintain / unmaintainable counters, findings (> 30) and check agree with the function lengths of the files as they are now"})
     fails.sort(key=lambda f: len(str(f["input"])))
     return fails, stats
+
+
+# ------------------------------------------------------------------ stream `codebase-growth`: query before complete. One Codebase
+# object is filled file by file (as scan_path does); after EVERY prefix everything the outputs are computed from is read
+# (quality profile, lines of code, average, counters, findings) and must be that of the files added so far.
+
+def gen_growth_case(rnd):
+    files = []
+    for i in range(rnd.choice([2, 3, 4, 6])):
+        ext = rnd.choice(list(HIST_LANG))
+        files.append(["%s%s%d%s" % (rnd.choice(["", "src/", "src/deep/"]), rnd.choice(HIST_STEMS), i, ext),
+                      [rnd.choice(BOUNDARY + [3, 45, 75, 120]) for _ in range(rnd.choice([0, 1, 2, 3]))]])
+    reads = sorted(set(rnd.sample(range(1, len(files) + 1), rnd.choice([1, 2]))) | {len(files)})
+    return {"stream": "codebase-growth", "files": files, "read_after": reads}
+
+
+def run_growth_case(case):
+    from codelimit.common.Codebase import Codebase
+    from codelimit.common.Location import Location
+    from codelimit.common.Measurement import Measurement
+    from codelimit.common.SourceFileEntry import SourceFileEntry
+    bad = []
+    try:
+        cb = Codebase("/r")
+        for k, (name, ls) in enumerate(case["files"]):
+            line, ms = 1, []
+            for i, v in enumerate(ls):
+                ms.append(Measurement("u%d" % i, Location(line, 1), Location(line + v - 1, 2), v)); line += v + 1
+            cb.add_file(SourceFileEntry(name, "c%d" % k, HIST_LANG[os.path.splitext(name)[1]], sum(ls), ms))
+            if k + 1 in case["read_after"]:
+                sofar = {n: l for n, l in case["files"][:k + 1]}
+                got = observe_profile(cb)
+                if got != profile_expected(sofar):
+                    bad.append("after %d of %d files: quality profile / lines of code / functions / average %s, required %s" % (k + 1, len(case["files"]), got, profile_expected(sofar)))
+                t, u = observe_codebase(cb, aggregate=False)
+                if t != counters_expected(sofar) or u != findings_expected(sofar):
+                    bad.append("after %d of %d files: counters %s findings %s, required %s %s" % (k + 1, len(case["files"]), t, u, counters_expected(sofar), findings_expected(sofar)))
+    except Exception as e:  # noqa: BLE001
+        bad.append("raised %s: %s" % (type(e).__name__, e))
+    return bad
+
+
+def growth_stream(ctx):
+    rnd = ctx.rng("codebase-growth")
+    cases = [gen_growth_case(rnd) for _ in range(ctx.pick(300, 5000))]
+    fails = []
+    for c in cases:
+        bad = run_growth_case(c)
+        if bad:
+            fails.append({"input": c, "observed": bad[:3], "required": "every figure is that of the files added so far"})
+    fails.sort(key=lambda f: len(str(f["input"])))
+    return fails, {"cases": len(cases), "reads_before_complete": sum(len(c["read_after"]) - 1 for c in cases)}
 
 
 def correspond(ctx):
@@ -712,11 +952,16 @@ def correspond(ctx):
     res["oracle_failures"] = cfails[:10] + list(res["oracle_failures"])
     res["evaluations"] += cstats["calls"]
     res["distribution"]["cli_entry"] = cstats
-    res["rule"] += " PLUS cli-entry: the CLI entry function codelimit.__main__.check(paths, exclude, quiet, verbose) in %d fresh interpreters on real source files (functions of exact lengths incl. 15/16, 30/31, 60/61): the full product quiet x (verbose off / --verbose / .codelimit.yml verbose true / false) x (no function > 30 / some in 31..60 / some > 60) x (file arguments / `.`) + random invocations (directory arguments, --exclude, config exclude, the same call twice in one process); stdout+stderr, listing, summary and exit status judged by the property text" % cstats["processes"]
+    res["rule"] += " PLUS cli-entry: the CLI entry function codelimit.__main__.check(paths, exclude, quiet, verbose) in %d fresh interpreters on real source files (functions of exact lengths incl. 15/16, 30/31, 60/61): the full product quiet x (verbose off / --verbose / .codelimit.yml verbose true / false) x (no function > 30 / some in 31..60 / some > 60) x (file arguments / `.`) + random invocations (directory arguments, --exclude, config exclude, the same call twice in one process) + %d invocations on trees with a file named from the Pygments-derived pools (BUILD, BUCK, SConscript, BUILD.bazel, x.hh, x.mjs, ... - it carries the long function) next to same-suffix names that are no source files (AUTHORS, LICENSE, Makefile, defs.bazel), file arguments in alphabetical / reverse / random order, `.` and directory arguments; stdout+stderr, listing, summary and exit status judged by the property text" % (cstats["processes"], cstats["with_pool_named_file_and_same_suffix_non_sources"])
     hfails, hstats = scan_history_stream(ctx)
     res["oracle_failures"] = hfails[:5] + list(res["oracle_failures"])
     res["evaluations"] += hstats["histories"]
     res["distribution"]["scan_history"] = hstats
     res["rule"] += " PLUS scan-history: %d histories scan -> change (copy / rename to the sibling language of the same text, rewrite, delete) -> scan again with the first report handed back: per-language counters, findings and `check .` judged by the lengths the files have now" % hstats["histories"]
+    gfails, gstats = growth_stream(ctx)
+    res["oracle_failures"] = list(res["oracle_failures"][:8]) + gfails[:3] + list(res["oracle_failures"][8:])
+    res["evaluations"] += gstats["cases"]
+    res["distribution"]["codebase_growth"] = gstats
+    res["rule"] += "; each history runs under Configuration.verbose on or off (%d on) and through scan_path or scan_codebase (%d), rewritten files partly keep / get an OLD modification time (%d), and the LOC-weighted quality profile, lines of code, number of functions, average and the root folder's profile are judged as well, the profile read first; PLUS codebase-growth: %d Codebase objects filled file by file, every figure read after a prefix (%d reads before completion) and at the end" % (hstats["verbose"], hstats["through_scan_codebase"], hstats["rewritten_with_old_mtime"], gstats["cases"], gstats["reads_before_complete"])
     res["rule"] += " PLUS real check_command / CheckResult.report output lines (path as printed from any working directory, position, length, symbol, summary) vs Model/CheckPrint.lean (Props/Gaps.lean part 3)"
     return res
